@@ -178,7 +178,7 @@ func (c ceval) eval(e ast.Expr) (*Val, error) {
 		}
 		v, err := q.constOf(e.Sel.Name)
 		if err == nil && v.Typ != "" && !strings.Contains(v.Typ, ".") {
-			if _, _, basic := (*Pkg)(nil).intInfo(v.Typ); !basic && v.Typ != "string" && v.Typ != "bool" {
+			if _, _, basic := (*Pkg)(nil).intInfo(v.Typ); !basic && v.Typ != "string" && v.Typ != "bool" && v.Typ != "big" {
 				v = &Val{I: v.I, S: v.S, B: v.B, K: v.K, Typ: x.Name + "." + v.Typ}
 			}
 		}
@@ -206,6 +206,15 @@ func (c ceval) eval(e ast.Expr) (*Val, error) {
 	case *ast.BinaryExpr:
 		return c.binary(e)
 	case *ast.CallExpr:
+		if v, ok := c.bigConst(e); ok {
+			return v, nil
+		}
+		if at, ok := e.Fun.(*ast.ArrayType); ok && at.Len == nil && render(at.Elt) == "byte" && len(e.Args) == 1 {
+			// []byte("text"): a byte-string value (key prefixes), kept as the string
+			if x, err := c.eval(e.Args[0]); err == nil && x.K == 's' {
+				return &Val{S: x.S, K: 's'}, nil
+			}
+		}
 		if len(e.Args) != 1 || e.Ellipsis.IsValid() {
 			break
 		}
@@ -213,6 +222,9 @@ func (c ceval) eval(e ast.Expr) (*Val, error) {
 		if id, ok := e.Fun.(*ast.Ident); ok && id.Name == "len" {
 			if x, err := c.eval(e.Args[0]); err == nil && x.K == 's' {
 				return &Val{I: big.NewInt(int64(len(x.S))), K: 'i', Typ: "int"}, nil
+			}
+			if n, ok := c.arrayLen(e.Args[0]); ok { // len(T{}) for an array type T with a constant length
+				return &Val{I: n, K: 'i', Typ: "int"}, nil
 			}
 			break
 		}
@@ -236,6 +248,140 @@ func (c ceval) eval(e ast.Expr) (*Val, error) {
 		return &Val{I: x.I, S: x.S, B: x.B, K: x.K, Typ: tn}, nil
 	}
 	return nil, fmt.Errorf("%s is not a constant expression", render(e))
+}
+
+// bigConst evaluates the *big.Int initialisers used for package-level values:
+// new(big.Int), big.NewInt(c), x.SetString("..", base), x.SetInt64/SetUint64(c),
+// x.Add/Sub/Mul/Div/Mod/Quo/Rem/Exp?(a, b) — no Exp — and x.Lsh/Rsh(a, n), where every operand is
+// again such an expression or a package-level value of that form. Typ is "big".
+func (c ceval) bigConst(e *ast.CallExpr) (*Val, bool) {
+	big0 := func(v *big.Int) (*Val, bool) { return &Val{I: v, K: 'i', Typ: "big"}, true }
+	fun := render(e.Fun)
+	if fun == "new" && len(e.Args) == 1 && render(e.Args[0]) == "big.Int" {
+		return big0(new(big.Int))
+	}
+	if fun == "big.NewInt" && len(e.Args) == 1 {
+		if x, err := c.eval(e.Args[0]); err == nil && x.K == 'i' {
+			return big0(x.I)
+		}
+		return nil, false
+	}
+	sel, ok := e.Fun.(*ast.SelectorExpr)
+	if !ok {
+		return nil, false
+	}
+	recv, ok := sel.X.(*ast.CallExpr)
+	if !ok {
+		return nil, false
+	}
+	if r, ok := c.bigConst(recv); !ok || r.Typ != "big" {
+		return nil, false
+	}
+	arg := func(i int) *big.Int {
+		if i >= len(e.Args) {
+			return nil
+		}
+		if x, err := c.eval(e.Args[i]); err == nil && x.K == 'i' {
+			return x.I
+		}
+		return nil
+	}
+	switch m := sel.Sel.Name; m {
+	case "SetString":
+		if len(e.Args) == 2 {
+			str, err := c.eval(e.Args[0])
+			base := arg(1)
+			if err == nil && str.K == 's' && base != nil && base.IsInt64() {
+				if v, ok := new(big.Int).SetString(str.S, int(base.Int64())); ok {
+					return big0(v)
+				}
+			}
+		}
+	case "SetInt64", "SetUint64", "Set":
+		if a := arg(0); a != nil && len(e.Args) == 1 {
+			return big0(a)
+		}
+	case "Add", "Sub", "Mul", "Div", "Mod", "Quo", "Rem":
+		a, b := arg(0), arg(1)
+		if a == nil || b == nil || len(e.Args) != 2 {
+			return nil, false
+		}
+		if b.Sign() == 0 && m != "Add" && m != "Sub" && m != "Mul" {
+			return nil, false
+		}
+		r := new(big.Int)
+		switch m {
+		case "Add":
+			r.Add(a, b)
+		case "Sub":
+			r.Sub(a, b)
+		case "Mul":
+			r.Mul(a, b)
+		case "Div":
+			r.Div(a, b)
+		case "Mod":
+			r.Mod(a, b)
+		case "Quo":
+			r.Quo(a, b)
+		case "Rem":
+			r.Rem(a, b)
+		}
+		return big0(r)
+	case "Lsh", "Rsh":
+		a, n := arg(0), arg(1)
+		if a == nil || n == nil || n.Sign() < 0 || n.BitLen() > 16 || len(e.Args) != 2 {
+			return nil, false
+		}
+		if m == "Lsh" {
+			return big0(new(big.Int).Lsh(a, uint(n.Int64())))
+		}
+		return big0(new(big.Int).Rsh(a, uint(n.Int64())))
+	}
+	return nil, false
+}
+
+// arrayLen evaluates len(T{}) where T (possibly pkg.T) is declared as [N]elem with constant N.
+func (c ceval) arrayLen(e ast.Expr) (*big.Int, bool) {
+	cl, ok := e.(*ast.CompositeLit)
+	if !ok || len(cl.Elts) != 0 || cl.Type == nil {
+		return nil, false
+	}
+	p, f, name := c.p, c.f, ""
+	switch t := cl.Type.(type) {
+	case *ast.Ident:
+		name = t.Name
+	case *ast.SelectorExpr:
+		x, ok := t.X.(*ast.Ident)
+		if !ok || f == nil {
+			return nil, false
+		}
+		builtin, dir, err := importOf(f, x.Name)
+		if err != nil || builtin != "" {
+			return nil, false
+		}
+		q, err := loadPkg(dir)
+		if err != nil || len(q.files) == 0 {
+			return nil, false
+		}
+		p, name = q, t.Sel.Name
+	default:
+		return nil, false
+	}
+	at, ok := p.types[name].(*ast.ArrayType)
+	if !ok || at.Len == nil {
+		return nil, false
+	}
+	var file *ast.File
+	for _, pf := range p.files {
+		if pf.Pos() <= at.Pos() && at.Pos() <= pf.End() {
+			file = pf
+		}
+	}
+	v, err := ceval{p: p, f: file}.eval(at.Len)
+	if err != nil || v.K != 'i' {
+		return nil, false
+	}
+	return v.I, true
 }
 
 func (c ceval) typed(v *big.Int, typ string) (*Val, error) {
